@@ -8,6 +8,21 @@ and emits them as Lean definitions over (rows, cols, i, j). Swapping n and m any
 import ast, os
 from py2lean import Refuse
 
+def _robust(gen, what):
+    """a source shape the spec did not anticipate is a readable refusal (tie broken), never a crash"""
+    def wrapped(repo):
+        try:
+            return gen(repo)
+        except Refuse:
+            raise
+        except (AttributeError, IndexError, KeyError, TypeError, ValueError, AssertionError) as e:
+            import traceback
+            tb = traceback.extract_tb(e.__traceback__)[-1]
+            raise Refuse(f'{what}: source has a shape this translator does not understand '
+                         f'({type(e).__name__}: {e}; while reading `{(tb.line or "").strip()[:70]}`)')
+    wrapped.__name__ = getattr(gen, '__name__', 'generator')
+    return wrapped
+
 def _axis_expr(node, env, var):
     """(VAR - (np.floor(A / 2) + 1)) / B  ->  (A', B') with A', B' in {'rows','cols'}"""
     src = ast.unparse(node)
@@ -101,7 +116,7 @@ def generator(repo):
                f'def psNormalise {{K : Type}} [Mul K] (sqrt : K → K) (div : K → K → K) (x count sumsq rms : K) : K := {norm_step}\n')
     return '\n'.join(out), [f'grid {grid}, noise {noise}, axes {axes}, tail {norm_step}']
 
-MODULES = [{'name': 'PowerSpectrum', 'src': 'lentil/wfe.py', 'generator': generator, 'props': ['C18']}]
+MODULES = [{'name': 'PowerSpectrum', 'src': 'lentil/wfe.py', 'generator': _robust(generator, 'power_spectrum bookkeeping'), 'props': ['C18']}]
 
 
 # ---------------------------------------------------------------------------------------------- rule07_dark_current
@@ -162,4 +177,4 @@ def rule07_generator(repo):
             '    (lit : Nat → Bool → Nat → K) (temperature cutoff_wavelength pixelscale : K) : K :=\n' + body + f'\n  {ret}\n')
     return text, [f'{len(lets)} statements']
 
-MODULES.append({'name': 'Rule07', 'src': 'lentil/detector.py', 'generator': rule07_generator, 'props': ['C18']})
+MODULES.append({'name': 'Rule07', 'src': 'lentil/detector.py', 'generator': _robust(rule07_generator, 'rule07_dark_current rate'), 'props': ['C18']})
